@@ -1,16 +1,16 @@
 //go:build probe
 
-// Reproduction of two suspected defects on the FRONT-LOCAL path (not part of the check: build tag
+// Reproduction of suspected defects on the FRONT-LOCAL path (not part of the check: build tag
 // `probe`).  Run:
 //
 //	cd /verif/harness && GOFLAGS=-mod=mod GOPROXY=off GOSUMDB=off GOTOOLCHAIN=local go1.26 test -vet=off \
 //	  -tags 'verif probe' -overlay=/verif/harness/c02/overlay/overlay.json -run TestProbeFrontLocal -count=1 ./c02
 //	cat /tmp/c02-probe.out
 //
-// Expected on /repo 1112075:
+// Expected on /repo 7b326e6 (D23 repaired; zoo.okboom is part of the check's zoo now):
 //
-//	reqs q=0,1,gate.zoo.okboom,v1 => TWO responses with id 1 (data, then error): SafeCall completes again after the panic
-//	reqs q=0,2,chat.zoo.okboom,v2 => one response (the second reply is a "miss response" at the front)
+//	reqs q=0,1,gate.zoo.okboom,v1 => one response (before 7b326e6: TWO, data then error — SafeCall completed again)
+//	reqs q=0,2,chat.zoo.okboom,v2 => one response
 //	reqs q=0,3,gate.zoo.hang,v3   => no response, not even after the 45 s flush (no timeout net front-locally)
 //	reqs q=0,4,chat.zoo.hang,v4   => the request-timeout error at 31 s
 package c02
@@ -28,13 +28,6 @@ import (
 	"github.com/dfklegend/cell2/apimapper/apientry"
 	"github.com/dfklegend/cell2/node/client/impls"
 )
-
-// Okboom completes, then panics in the same frame.
-func (z *Zoo) Okboom(ctx *impls.HandlerContext, a *Arg, cb apientry.HandlerCBFunc) {
-	_, r := enter(ctx, "okboom", a)
-	apientry.CheckInvokeCBFunc(cb, nil, r)
-	panic("after completion")
-}
 
 // Hang is asynchronous; its continuation panics before completing (timer.Mgr swallows the panic).
 func (z *Zoo) Hang(ctx *impls.HandlerContext, a *Arg, cb apientry.HandlerCBFunc) {
